@@ -1208,6 +1208,11 @@ func (s *LoadingStore[K, V]) Get(ctx context.Context, key K) (V, error) {
 				loaded.Cost = s.cost(loaded.Value)
 			}
 
+			if err == nil && loaded.Cost > int64(s.cap) {
+				// same guard as Set: a value that can never fit is handed to the
+				// callers but not stored, so it cannot displace resident entries
+				return loaded, nil
+			}
 			if err == nil {
 				result = s.setShardWithoutLock(shard, h, key, loaded.Value, loaded.Cost, expire, false)
 				entryCost = loaded.Cost
